@@ -37,6 +37,9 @@ Step ==
                [] e.ev = "SysTeardown"      -> YTeardown(y)
                [] e.ev = "Panic"            -> YPanic(y)
                [] e.ev = "SysAdmitted"      -> YAdmitted(y, e.k)
+               [] e.ev = "SysFault"         -> IF e.side = "s" THEN YServerFault(y, e.k) ELSE y
+               [] e.ev = "SysUseAfterFail"  -> YUseAfterFail(y, e.side, e.op)
+               [] e.ev = "SysSpin"          -> YUseAfterFail(y, e.side, "again and again without returning to the executor")
                [] e.ev = "SysWireClose"     -> IF e.side = "c" THEN YClientClose(y, e.k) ELSE y
                [] OTHER                     -> y
 
@@ -52,7 +55,9 @@ Verdict_C08 == Verdict_C01
 Verdict_C10 == Report("Inv_C10sys", y.bad10 = {}, y.bad10)
 Verdict_C12 == Report("Inv_C12sys", y.bad12 = {}, y.bad12)
 Verdict_C18 == Report("Inv_C18sys", y.bad18 = {}, y.bad18)
+Verdict_C09 == Report("Inv_C09sys", y.bad09 = {}, y.bad09)
+Verdict_C14 == Report("Inv_C14sys", y.bad14 = {}, y.bad14)
 Verdict_C13 == Report("Inv_C13sys", y.bad13 = {}, y.bad13)
-Verdict_All == Verdict_C01 /\ Verdict_C02 /\ Verdict_C03 /\ Verdict_C04 /\ Verdict_C05 /\ Verdict_C06 /\ Verdict_C10 /\ Verdict_C12 /\ Verdict_C13 /\ Verdict_C18
+Verdict_All == Verdict_C01 /\ Verdict_C02 /\ Verdict_C03 /\ Verdict_C04 /\ Verdict_C05 /\ Verdict_C06 /\ Verdict_C10 /\ Verdict_C12 /\ Verdict_C13 /\ Verdict_C18 /\ Verdict_C09 /\ Verdict_C14
 Accepted == l = Len(Rec) + 1 => PrintT(<<"ACCEPTED", Len(Rec)>>)
 =============================================================================
